@@ -174,47 +174,73 @@ Definition step (c : cfg) (s : st) (e : ev) : st * obs :=
 Definition step_st (c : cfg) (s : st) (e : ev) : st := fst (step c s e).
 
 (* ---- script interface ----
-   script = [cap; max_wait (-1 = none, else ms); n; (op a b)* ]
-     op 1 = Poll a, 2 = Drop a, 3 = Advance a ms, 4 = Complete a b (b: 0 ok 1 err 2 panic)
+   script = [cap; max_wait (-1 = none, else ms); nf; (op a b)* ]
+     nf = n + 1000 * flags: n = number of scripted callers (ids 0..n-1); the flags select the
+       builder route, the service handle each caller goes through and listener registration in
+       the driver (harness/src/bin/c01.rs) -- none of them exists in this model: every route
+       yields the configuration (cap, max_wait) and every handle shares the one semaphore.
+     op 1 = Poll a, 2 = Drop a, 3 = Advance a ms, 4 = Complete a b (b: 0 ok 1 err, else panic;
+       3 = the inner service panics synchronously inside its call(), which is the same
+       observable behaviour as a response future that panics in its first poll),
+     5 = call() without a poll (nothing happens in call() for this layer: no-op).
+     Events of ops 1, 2, 4, 5 whose caller id is outside 0..n-1 are ignored (no trace row).
    After the scripted events every caller 0..n-1 is dropped and cap+1 fresh callers
    n..n+cap are polled once each (capacity probe, C07).
-   trace = per event [r; started; seen; wake mask over all callers; in-flight count] *)
+   trace = per event [r; inner calls started in this poll; seen; wake mask over the first 120
+                      callers; in-flight count; id+1 of the request whose inner call started] *)
 Definition outcome_of (z : Z) : outcome :=
   if z =? 0 then OOk else if z =? 1 then OErr else OPanic.
 
-Definition ev_of (t : Z * Z * Z) : option ev :=
+Definition ev_of (n : nat) (t : Z * Z * Z) : option ev :=
   let '(op, a, b) := t in
   let i := Z.to_nat a in
+  if op =? 3 then Some (Advance a) else
+  if negb ((0 <=? a) && (a <? Z.of_nat n)) then None else
   if op =? 1 then Some (Poll i) else
   if op =? 2 then Some (Drop i) else
-  if op =? 3 then Some (Advance a) else
   if op =? 4 then Some (Complete i (outcome_of b)) else
   if op =? 5 then Some (Advance 0) else None.
   (* op 5 = the call future of caller a is created (call()) without being polled: nothing
      happens in call() for this layer, so the model treats it as a no-op *)
 
-Fixpoint evs_of (l : list (Z * Z * Z)) : list ev :=
+Fixpoint evs_of (n : nat) (l : list (Z * Z * Z)) : list ev :=
   match l with
   | [] => []
-  | t :: rest => match ev_of t with Some e => e :: evs_of rest | None => evs_of rest end
+  | t :: rest => match ev_of n t with Some e => e :: evs_of n rest | None => evs_of n rest end
   end.
 
 Definition wake_mask (s : st) (total : nat) : Z :=
   fold_left (fun acc j => if woken s j then acc + 2 ^ Z.of_nat j else acc) (seq 0 total) 0.
+
+(* the request whose inner call was started by this event (id + 1; 0 = none) *)
+Definition started_id (e : ev) (o : obs) : Z :=
+  match e with
+  | Poll i => if started o then Z.of_nat i + 1 else 0
+  | _ => 0
+  end.
 
 Fixpoint run_evs (c : cfg) (total : nat) (s : st) (evs : list ev) : list Z :=
   match evs with
   | [] => []
   | e :: rest =>
     let '(s', o) := step c s e in
-    [r o; b2z (started o); seen o; wake_mask s' total; Z.of_nat (length (running s'))]
+    [r o; b2z (started o); seen o; wake_mask s' total; Z.of_nat (length (running s'));
+     started_id e o]
       ++ run_evs c total s' rest
   end.
 
+Definition cfg_of (sc : list Z) : cfg :=
+  {| cap := Z.to_nat (zn sc 0);
+     max_wait := if zn sc 1 <? 0 then None else Some (zn sc 1) |}.
+
+Definition callers_of (sc : list Z) : nat := Z.to_nat (zn sc 2 mod 1000).
+
+Definition script_evs (sc : list Z) : list ev := evs_of (callers_of sc) (chunk3 (skipn 3 sc)).
+
+Definition probe_evs (c : cfg) (n : nat) : list ev :=
+  map Drop (seq 0 n) ++ map Poll (seq n (cap c + 1)).
+
 Definition run_script (sc : list Z) : list Z :=
-  let c := {| cap := Z.to_nat (zn sc 0);
-              max_wait := if zn sc 1 <? 0 then None else Some (zn sc 1) |} in
-  let n := Z.to_nat (zn sc 2) in
-  let evs := evs_of (chunk3 (skipn 3 sc)) in
-  let probe := map Drop (seq 0 n) ++ map Poll (seq n (cap c + 1)) in
-  run_evs c (n + cap c + 1) (init c) (evs ++ probe).
+  let c := cfg_of sc in
+  let n := callers_of sc in
+  run_evs c (Nat.min (n + cap c + 1) 120) (init c) (script_evs sc ++ probe_evs c n).
